@@ -26,8 +26,8 @@ from sx import Sym, Str
 
 PROP = "C10"
 PROP_FILE = "C10_EntJson"
-THEOREMS = ["c10_value_rt", "c10_reserved", "c10_context_rt", "c10_context_rt_refuted", "c10_context_rt_fixed",
-            "c10_entity_rt", "c10_implicit_explicit"]
+THEOREMS = ["c10_value_rt", "c10_reserved", "c10_context_rt", "c10_context_reserved", "c10_entity_rt",
+            "c10_implicit_explicit", "c10_store_rt", "c10_store_schema_actions"]
 LEVEL = "proof" if THEOREMS else "exploration"
 
 MANIFEST = {
@@ -40,8 +40,8 @@ MANIFEST = {
             "and mutated documents) and an implementation-level round-trip / variant-agreement oracle.",
     "technique": "proof (Coq, structural induction on values and types) + correspondence by differential execution + "
                  "round-trip / metamorphic oracle on the implementation",
-    "note": "Context::to_json_value does not refuse a top-level reserved key (key C10:context_top_level_reserved_key): "
-            "a one-entry context {\"__entity\": {type,id}} serialises but cannot be parsed back.",
+    "note": "Finding C10:context_top_level_reserved_key (Context::to_json_value did not refuse a reserved top-level key) "
+            "was fixed in /repo by 4b26962; the probes stay in the check and are reported under that key if the fix is reverted.",
 }
 
 KEY_CTX = "C10:context_top_level_reserved_key"
@@ -571,9 +571,16 @@ def check_ctx_rt(case, res):
         if "to_json_error" not in r:
             bad.append("a record with a reserved key was serialised instead of refused")
         return bad
-    if any(k in RESERVED for k, _ in pairs) and "to_json_error" in r:
-        return bad      # a reserved TOP-LEVEL key refused at serialisation (the behaviour with the fix for
-                        # C10:context_top_level_reserved_key, = EntJson.context_to_json_fixed): nothing is altered
+    if any(k in RESERVED for k, _ in pairs):
+        # a reserved TOP-LEVEL key must be refused like a nested one (/repo 4b26962; before that fix the three
+        # one-entry probes serialised to JSON that does not parse back: finding C10:context_top_level_reserved_key)
+        if "to_json_error" not in r:
+            bad.append("a context with a reserved top-level key was serialised instead of refused")
+            for which in ("back_noschema", "back_text"):
+                v = verdict(r.get(which))
+                if v != ("ok", orig["context"]):
+                    bad.append("%s is not equal to the original context: %s" % (which, v[:3] if v[0] != "ok" else "different"))
+        return bad
     if "json" not in r:
         return bad + ["context serialisation failed on representable data"]
     if canon_json(r["json"]) != canon_json({k: explicit(v) for k, v in pairs}):
@@ -626,10 +633,10 @@ CHECKS = {"rt": check_rt, "ctx_rt": check_ctx_rt, "variants_entities": check_var
 
 
 def is_ctx_finding(case):
-    """the known shape: a ONE-entry context whose key is reserved"""
-    return case["kind"] == "ctx_rt" and len(case["pairs"]) == 1 and case["pairs"][0][0] in RESERVED \
-        and not has_reserved(case["pairs"][0][1])
-
+    """the shape of finding C10:context_top_level_reserved_key (fixed by /repo 4b26962): a context with a reserved
+       TOP-LEVEL key and nothing reserved below"""
+    return case["kind"] == "ctx_rt" and any(k in RESERVED for k, _ in case["pairs"]) \
+        and not any(has_reserved(v) for _, v in case["pairs"])
 
 
 # ====================================================================== the model side (coq/model/EntJsonRun.v)
@@ -860,8 +867,6 @@ def compare_model(what, cmd, rust, model):
     if what == "to_json":
         if model[0] == "ok":
             if "json" not in rust:
-                if any(k in RESERVED for k, _ in cmd.get("pairs", [])):
-                    return None     # agrees with EntJson.context_to_json_fixed (top-level reserved key refused)
                 return "model serialises, implementation refuses"
             return None if canon_json(sx_json(model[1])) == canon_json(rust["json"]) else "serialised trees differ"
         return None if "to_json_error" in rust else "model refuses (%s), implementation serialises" % model[1]
